@@ -11,6 +11,7 @@ NOTE = ("trusted: Lean kernel + propext/Classical.choice/Quot.sound; the hand-wr
         "by the correspondence run on every invocation (differential, bounded by the generators); numpy/hpgeom/astropy "
         "primitives are modelled, not verified. ")
 TECH = "Lean 4 theorems over an executable model + model/implementation correspondence"
+TECH2 = " + kernel tables regenerated from the source by a translator and re-proved (decide +kernel)"
 CLAIMS = {
     'C01': ("Lean proof that the model's update path refines a dense array for every history/configuration "
             "(C01.history_refines, updateCore_refines, never_written_reads_sentinel, clear_spec); correspondence of the "
@@ -26,8 +27,11 @@ CLAIMS = {
             "the published layout invariant (Inv), with a verified executable checker (checkInv_iff) run on the REAL "
             "arrays after every call of every generator; GLOBAL: every map and file reachable through ANY protocol history "
             "over the whole executable API model obeys the layout (reachable_wf, reachable_get_wf, reachable_checkInv, "
-            "reachable_file_wf: induction over all ~50 operations incl. views, files, refused calls)", NOTE, TECH,
-            "6 C04 / AB.9"),
+            "reachable_file_wf: induction over all ~50 operations incl. views, files, refused calls); TRANSLATOR: the bit-shift "
+            "and default-sentinel kernels (utils._compute_bitshift on every legal nside pair, check_sentinel on every "
+            "dtype, UNSEEN) are re-extracted from /repo on every run and proved equal to the model's definitions "
+            "(C04Kernels: kernel_bitshift, kernel_bitshift_spec, kernel_default_sentinels, kernel_unseen)", NOTE, TECH + TECH2,
+            "6 C04 / AB.9 / AB.10"),
     'C08': ("Lean proof that the slice path of range updates equals the explicit-pixel update for all range arrays "
             "(ranges_eq_explicit, updateRanges_refines, expand_upgrade); API LEVEL: both paths of the range update return "
             "equal values at every pixel for every well-formed map, operation, rows (overlapping, repeated, empty) and "
@@ -48,15 +52,19 @@ CLAIMS = {
     'C13': ("Lean proof of the bit-set semantics of wide-mask rows (pack_testBit, set/clear/xor/and/check specs, "
             "validity iff non-empty, width rules); correspondence over widths and byte-boundary bits with every bit "
             "read back; API LEVEL (39 theorems): set / clear / check / bit-list operators as set operations on per-pixel bit "
-            "sets, validity = non-empty set, exact error conditions, refused calls store nothing", NOTE, TECH,
-            "6 C13 / AB.9"),
+            "sets, validity = non-empty set, exact error conditions, refused calls store nothing; TRANSLATOR: "
+            "_get_field_and_bitval (bits 0..127) and _bitvals_to_packed_array (every bit and pair for widths 8/16/24) "
+            "re-extracted from /repo on every run and proved equal to the model's definitions (C13Kernels)", NOTE, TECH + TECH2,
+            "6 C13 / AB.9 / AB.10"),
     'C17': ("Lean proof that the MOC writer covers exactly the valid set with disjoint cells no coarser than the "
             "coverage order and that read(write) restores it (moc_cover, moc_disjoint, moc_order_ge_cov, moc_maximal, "
             "moc_read_write), with witnesses for the two repaired defects; correspondence of UNIQ columns and "
             "read-back maps; DRIVER LEVEL (52 theorems): the UNIQ column written for a map of any kind is an exact, disjoint, "
             "maximal cover of its valid set, the reader's order and map, the round trip as protocol steps, exact NUNIQ "
-            "coding for every order", NOTE + "the FITS table layer is trusted; the library's float64 log2 is NOT modelled "
-            "(the model uses exact Nat.log2) — the deviation beyond 2^50 was finding F71, fixed.", TECH, "6 C17 / AB.9"),
+            "coding for every order; TRANSLATOR: io_map_fits._uniq_order is CALLED on both ends of every order 0..29 (and "
+            "neighbours) on every run and proved equal to the model's exact uniqOrder (C17Kernels) — the float64 log2 "
+            "deviation that was finding F71 now breaks that obligation with the failing rows as replay", NOTE +
+            "the FITS table layer is trusted.", TECH + TECH2, "6 C17 / AB.9 / AB.10"),
     'C03': ("Lean proof of the serialisation logic: full read = identity, coverage read = coverage mask, partial read = "
             "restriction to the requested covered coverage pixels with exact rejection conditions (read_partial_spec, "
             "read_partial_rejects_iff), read-back map interchangeable (C10.Same); correspondence incl. raw astropy "
@@ -98,9 +106,14 @@ CLAIMS = {
             "file writers change no map; no_tie_world / result_independent for every continuation", NOTE, TECH,
             "6 C09 / AB.9"),
     'C10': ("Lean proof that every modelled operation maps content-equal representations (Same) to content-equal "
-            "results and equal query answers, for every continuation (12 theorems incl. history_interchangeable); "
-            "correspondence over twin construction routes with a shared continuation", NOTE + "runtime representation "
-            "differences (ownership, byte order) are visible only to the correspondence.", TECH, "6 C10"),
+            "results and equal query answers, for every continuation (12 theorems incl. history_interchangeable); WORLD "
+            "LEVEL (Props/C10World): in content-equal reachable worlds every protocol line — all operations incl. files, "
+            "degrade, degrade-on-read, cat, HEALPix export, in-place operations through field views — gives the same "
+            "answer (errors included) and content-equal worlds again (same_step, same_history, same_routes), outside "
+            "an explicit exception set proved equal in both worlds (array dumps; one driver artefact; cat over files "
+            "of mixed kind); correspondence over twin construction routes with a shared continuation", NOTE +
+            "runtime representation differences (ownership, byte order) are visible only to the correspondence.", TECH,
+            "6 C10 / AB.10"),
     'C14': ("Lean proof over abstract record cells with a field lens: primary-based validity, whole-record read-back, "
             "field copy = values at the parent's valid pixels, field view reads, writes through a view change exactly "
             "that field of the addressed pixels, the view guard rejects new pixels (7 theorems); correspondence with "
